@@ -1,4 +1,6 @@
 """C15 — grid-honouring rays terminate and break only on grid lines."""
+import numpy as np
+
 import common as C
 import gen as G
 from framework import Check
@@ -16,6 +18,24 @@ def run(tier):
     r = G.rng_for(C.seed(), "C15")
     ck.lean(["FteikVerif.Props.C15"], THEOREMS)
     c10.run_rays(ck, r, tier, honor=True)
+    # corpus: reproducers of the repaired defect C15-far-boundary-source-no-termination (fix 162f974): a source exactly on the far
+    # boundary of an axis; before the fix the ray oscillated inside the last cell for ever (no vertex stored, budget never used)
+    corpus = []
+    for sh, d, o, src, end in [((2, 5, 5), (30.0, 30.0, 10.0), (3.0, 20.0, -6.0), (3.0, 170.0, -6.0), (63.0, 20.0, -6.0)),
+                               ((5, 2, 5), (30.0, 30.0, 10.0), (3.0, 20.0, -6.0), (153.0, 20.0, -6.0), (3.0, 80.0, -6.0)),
+                               ((4, 6), (10.0, 30.0), (0.0, 0.0), (40.0, 0.0), (0.0, 180.0))]:
+        corpus.append({"op": "api_solve", "grid": np.full(sh, 3.0), "gridsize": d, "origin": o, "sources": list(src), "nsweep": 2,
+                       "grad": True, "ray_points": list(end), "ray_kw": {"honor_grid": True}, "timeout": 20.0,
+                       "meta": {"shape": sh, "d": d, "origin": o, "src": src, "end": end}})
+    for mode in ("jit",):
+        for t, o_ in zip(corpus, C.run_impl(corpus, mode, timeout=600)):
+            ck.count(1, sig=(mode, "corpus-far-boundary-source", len(t["gridsize"]), o_["status"]))
+            if o_["status"] == "Timeout":
+                ck.violation("ray tracing did not terminate (watchdog)", {"mode": mode, "level": "api", "case": {
+                    k: (np.asarray(v).tolist() if isinstance(v, np.ndarray) else v) for k, v in t.items()}})
+            elif o_["status"] not in ("ok", "RuntimeError:maxsteps"):
+                ck.violation(f"grid-honouring ray request ended with {o_['status']}", {"mode": mode, "level": "api", "case": {
+                    k: (np.asarray(v).tolist() if isinstance(v, np.ndarray) else v) for k, v in t.items()}})
     ck.proved = ["a returned polyline starts exactly at the source, ends exactly at the end point and stores at most max_step rows",
                  "the shrunk step ends exactly on the face that defined the shrink factor, which lies in [0,1) (exact arithmetic)",
                  "a non-crossing iteration stores nothing (and therefore does not consume budget)"]
